@@ -68,13 +68,14 @@ func zzVerifySolution(req *protocol.ProofOfWork, p pow.Parameters) (*pow.Decoded
 	return nil, errors.New("zz: proof of work refused")
 }
 
-// chord.Random: an arbitrary id below 2^48, drawn from four windows of eight consecutive values (decimal lengths
-// 1, 1-2, 2 and 15 digits) so that its decimal rendering is exact in the engine.
+// chord.Random: an arbitrary id below 2^48, drawn from windows of eight consecutive values (bound "idwindows" of
+// them: around 0, 10, 100, the top of the ring, then 10^3, 2^32, 10^12, 10^14 and 2^47) so that its decimal
+// rendering is exact in the engine (a wider symbolic integer would be rendered as an uninterpreted string).
 var zzID uint64
 
 func zzRandom() uint64 {
-	bases := []uint64{0, 5, 96, 1<<48 - 8}
-	zzID = bases[rt.Choose("id-window", len(bases))] + uint64(rt.U8("id-offset")&7)
+	bases := []uint64{0, 5, 96, 1<<48 - 8, 996, 1<<32 - 4, 999999999996, 99999999999996, 1<<47 - 4}
+	zzID = bases[rt.Choose("id-window", rt.Bound("idwindows"))] + uint64(rt.U8("id-offset")&7)
 	return zzID
 }
 
@@ -134,16 +135,16 @@ func zzParseCertificate(der []byte) (*x509.Certificate, error) {
 	return nil, errors.New("zz: not a certificate of this scenario")
 }
 
-// zzDigits: one or two arbitrary decimal digits and their value.
+// zzDigits: 1..bound "digits" arbitrary decimal digits and their value.
 func zzDigits(name string) (string, uint64) {
-	d0 := rt.U8(name + "-d0")
-	rt.Assume(rt.And(d0 >= '0', d0 <= '9'))
-	if rt.Fork(name + "-two-digits") {
-		d1 := rt.U8(name + "-d1")
-		rt.Assume(rt.And(d1 >= '0', d1 <= '9'))
-		return string([]byte{d0, d1}), uint64(d0-'0')*10 + uint64(d1-'0')
+	n := 1 + rt.Choose(name+"-digits", rt.Bound("digits"))
+	ds := rt.BytesN(name+"-d", n)
+	v := uint64(0)
+	for _, d := range ds {
+		rt.Assume(rt.And(d >= '0', d <= '9'))
+		v = v*10 + uint64(d-'0')
 	}
-	return string([]byte{d0}), uint64(d0 - '0')
+	return string(ds), v
 }
 
 func zzBuildOld() {
@@ -153,7 +154,7 @@ func zzBuildOld() {
 	case 0, 1:
 		ds, id := zzDigits("old-id")
 		zzOldID = id
-		zzOldTok = string(rt.BytesN("old-tok", 2))
+		zzOldTok = string(rt.BytesN("old-tok", rt.Bound("toklen")))
 		ver := "v2"
 		if zzOldClass == 1 {
 			ver = "v1"
@@ -342,10 +343,10 @@ func ZZ_C32_Renew() {
 	rt.Reach("end")
 }
 
-// zzSubject: an arbitrary well-formed subject "<v1|v2>:<1-2 digits>:<0-2 bytes>".
+// zzSubject: an arbitrary well-formed subject "<v1|v2>:<digits>:<0..toklen bytes>".
 func zzSubject(name string) (cn string, v2 bool, id uint64, tok string) {
 	ds, id := zzDigits(name + "-id")
-	tok = string(rt.Bytes(name+"-tok", 2))
+	tok = string(rt.Bytes(name+"-tok", rt.Bound("toklen")))
 	v2 = rt.Fork(name + "-v2")
 	ver := "v1"
 	if v2 {
